@@ -1,7 +1,7 @@
 import Driver.Proto
 import Driver.KeysCommon
 import SsqlVerif.Model.GroupKey
-import SsqlVerif.Model.GroupAgg
+import SsqlVerif.Model.GroupPartition
 import SsqlVerif.Model.Counting
 import SsqlVerif.Spec.Counting
 set_option autoImplicit false
